@@ -30,9 +30,9 @@ def run(pid, tier):
     o.add_tlc(rr, 'TraceDiscrete')
     o.traces += len(lines)
     evs = [json.loads(x) for x in lines]
-    judged = sum(1 for e in evs if e['op'] not in ('hist', 'ticket') or e.get('guard_ok'))
-    outside = sum(1 for e in evs if e['op'] in ('hist', 'ticket') and not e.get('guard_ok'))
-    o.extra['events_by_kind'] = {k: sum(1 for e in evs if e['op'] == k) for k in ('hist', 'ticket', 'geo', 'bf', 'bft', 'sgeo')}
+    judged = sum(1 for e in evs if e['op'] not in ('hist', 'ticket', 'zipf0') or e.get('guard_ok'))
+    outside = sum(1 for e in evs if e['op'] in ('hist', 'ticket', 'zipf0') and not e.get('guard_ok'))
+    o.extra['events_by_kind'] = {k: sum(1 for e in evs if e['op'] == k) for k in ('hist', 'ticket', 'zipf0', 'geo', 'bf', 'bft', 'sgeo')}
     o.extra['outside_exact_regime_not_judged'] = outside
     if judged == 0 or sum(1 for e in evs if e['op'] == 'hist' and e.get('guard_ok')) == 0:
         raise ToolError('no event in the exact regime (vacuous)')
